@@ -104,11 +104,12 @@ impl ProxySettings {
         }
 
         if let Some(host) = url.host_str() {
-            if !self
-                .no_proxy_hosts
-                .iter()
-                .any(|x| host.ends_with(x.to_lowercase().as_str()))
-            {
+            // A host bypasses the proxy when it equals an entry or is a subdomain of it. Hosts
+            // that merely end with the same letters, and empty entries, do not match.
+            if !self.no_proxy_hosts.iter().any(|x| {
+                let x = x.to_lowercase();
+                !x.is_empty() && (host == x || host.ends_with(&format!(".{x}")))
+            }) {
                 return match url.scheme() {
                     "http" => self.http_proxy.as_ref(),
                     "https" => self.https_proxy.as_ref(),
